@@ -42,6 +42,11 @@ def file_specs(tier: str) -> list:
     specs.append({'id': 'v21cnosep', 'layout': 'v21', 'compress': True, 'variant': 'nosep', 'wseed': 1})
     specs.append({'id': 'v19cnodummy', 'layout': 'v19', 'compress': True, 'variant': 'nodummy', 'wseed': 2})
     specs.append({'id': 'v20novis', 'layout': 'v20', 'compress': False, 'variant': 'novis', 'wseed': 3})
+    # header version words that are no member of VERSIONS (BSP.version is Union[VERSIONS, int]: unknown numbers
+    # only log a warning and have to be written back unchanged): upper 16 bits set, unknown small numbers
+    specs.append({'id': 'verhi', 'layout': 'v20', 'compress': False, 'variant': 'ver:262164', 'wseed': 6})      # 0x00040014
+    specs.append({'id': 'ver24', 'layout': 'v20', 'compress': True, 'variant': 'ver:24', 'wseed': 7})
+    specs.append({'id': 'ver16', 'layout': 'v19', 'compress': False, 'variant': 'ver:16', 'wseed': 8})
     if tier == 'thorough':
         specs.append({'id': 'v20call', 'layout': 'v20', 'compress': 'all', 'variant': 'std', 'wseed': 5})
         for k, fmt in enumerate(sorted(S.SPRP)):
@@ -65,6 +70,8 @@ def build_file(spec: dict, path: str) -> None:
     w = S.make_world(spec['layout'], spec['wseed'], sprp=sprp)
     if var == 'novis':
         w['vis'] = None
+    if var.startswith('ver:'):
+        w['version_word'] = int(var[4:])
     data = S.build(w, compress=spec['compress'], game_sep=var != 'nosep', dummy_game_lump=var != 'nodummy')
     with open(path, 'wb') as f:
         f.write(data)
@@ -129,6 +136,39 @@ class FileCtx:
             self.ref = {'head': {}, 'meta': {}, 'raw': {}, 'views': {v: None for v in L.PROJECT_ORDER}, 'errors': {}}
             self.trivial = []
         self.tmp = os.path.join(work, f'tmp_{spec["id"]}_{os.getpid()}')
+        with open(self.path, 'rb') as f:
+            self.indep = S.decode_file(f.read())    # the input as the FILE states it, decoded without srctools
+
+
+def indep_diff(a: dict, b: dict) -> tuple[list, list]:
+    """Header differences between two independently decoded files ([what, item] pairs) and the lumps /
+    game lumps whose decompressed bytes differ."""
+    head = [[k, ''] for k in ('magic', 'version', 'revision', 'l4d2') if a[k] != b[k]]
+    changed = []
+    for name, la in a['lumps'].items():
+        lb = b['lumps'][name]
+        if name == 'GAME_LUMP':
+            continue        # the directory holds file offsets; its entries are compared below
+        if la['ver'] != lb['ver']:
+            head.append(['lumpVersion', name])
+        if la['comp'] != lb['comp']:
+            head.append(['lumpCompressed', name])
+        if la['data'] != lb['data']:
+            changed.append(name)
+    if [g['id'] for g in a['game']] != [g['id'] for g in b['game']]:
+        head.append(['gameLumpList', ''])
+    gb = {g['id']: g for g in b['game']}
+    for g in a['game']:
+        h = gb.get(g['id'])
+        if h is None:
+            continue
+        if g['flags'] != h['flags']:
+            head.append(['gameFlags', 'game:' + g['id']])
+        if g['ver'] != h['ver']:
+            head.append(['gameVersion', 'game:' + g['id']])
+        if g['data'] != h['data']:
+            changed.append('game:' + g['id'])
+    return head, changed
 
 
 def run_scenario(ctx: FileCtx, acc: list, tracer: L.Tracer, src: str, full: bool = True) -> dict:
@@ -141,7 +181,7 @@ def run_scenario(ctx: FileCtx, acc: list, tracer: L.Tracer, src: str, full: bool
         'k': 'run', 'file': spec['id'], 'acc': acc, 'cacheAfterAccess': [], 'ev': [], 'cacheAfterSave': [],
         'changed': [], 'viewDiff': [], 'headDiff': [], 'metaDiff': [], 'trivial': ctx.trivial, 'resave': 'same',
         'saveAgain': 'same', 'cycle2': [], 'errors': {}, 'cycles': 'full' if full else 'main', 'failed': [],
-        'rawMismatch': spec.get('raw_mismatch', []),
+        'rawMismatch': spec.get('raw_mismatch', []), 'indepHead': [], 'indepChanged': [],
         'sig': {'kind': 'run', 'action': 'save', 'layout': spec['layout'], 'compress': spec['compress'],
                 'variant': spec['variant'], 'src': src},
         'spec': {k: spec[k] for k in ('id', 'layout', 'compress', 'variant', 'wseed', 'heavy')},
@@ -175,6 +215,8 @@ def run_scenario(ctx: FileCtx, acc: list, tracer: L.Tracer, src: str, full: bool
             L.quiet_save(bsp, p2)
             with open(p2, 'rb') as f:
                 rec['saveAgain'] = 'same' if f.read() == bytes1 else 'diff'
+        stage = 'decode'        # the written file against the INPUT, both decoded without srctools
+        rec['indepHead'], rec['indepChanged'] = indep_diff(ctx.indep, S.decode_file(bytes1))
         stage = 'reread'
         new = L.project_file(p1)
         cmp1 = L.compare_files(ctx.ref, new)
